@@ -524,6 +524,36 @@ SHARED_REG = ('yaclib::detail::SharedCore::SetCallback', 'yaclib::detail::Shared
               'yaclib::detail::SharedCore::SetInline')
 
 
+_nw_cache = {}
+
+
+def _next_writers(fb, tname):
+    """methods of record `tname` (or of its bases / derived classes) that assign this->next"""
+    key = (id(fb), tname)
+    if key in _nw_cache:
+        return _nw_cache[key]
+    related = {tname} | set(fb.all_bases(tname)) | set(fb.derived(tname))
+    related.discard('yaclib::detail::InlineCore')
+    related.discard('yaclib::Job')
+    related.discard('yaclib::detail::Node')
+    out = []
+    for g in fb.fn.values():
+        if g.cls not in related:
+            continue
+        for n in g.own_nodes():
+            if n['k'] == 'BinaryOperator' and n['op'] == '=':
+                l = g.sn(n['ch'][0])
+                if l is not None and l['k'] == 'MemberExpr' and l.get('mn') == 'next' and l.get('ch'):
+                    b = g.sn(l['ch'][0])
+                    while b is not None and b['k'] in ('ImplicitCastExpr', 'CXXStaticCastExpr'):
+                        b = g.sn(b['ch'][0])
+                    if b is not None and b['k'] == 'CXXThisExpr':
+                        out.append(g)
+                        break
+    _nw_cache[key] = out
+    return out
+
+
 def check_node_reuse(ctx, fb, rule, scope=None):
     """A continuation registered on a SHARED core is linked into that core's intrusive list through its own `next`
     field, so one callback object can be registered on at most one shared core at a time.  Every registration site
@@ -560,6 +590,14 @@ def check_node_reuse(ctx, fb, rule, scope=None):
             key = 'R-NODEREUSE %s' % f.qn
             ctx.instance(rule, key + ' :: ' + f.full[:120], dict(site=f.loc(c), arg=f.text(arg), in_loop=in_loop,
                                                                 per_registration_object=varying))
+            # the registered object's own next field belongs to the shared core's list until the callback runs
+            t = ((f.sn(arg) or {}).get('t') or '').replace('const ', '').rstrip('& ').strip()
+            users = _next_writers(fb, t)
+            if users:
+                ctx.report(rule, key + ' next-owner', f.loc(c),
+                           'an object of type %s is linked into a shared core\'s subscriber list through its next field, '
+                           'but %s also stores something else in that field: the list is corrupted (subscribers cut off, '
+                           'the counter bypassed)' % (t[:100], users[0].qn), 'function: ' + f.full[:300])
             same = [o for o in sites if o is not c and f.text(o['args'][0]) == f.text(arg)]
             if not varying and (in_loop or same):
                 ctx.report(rule, key, f.loc(c),
